@@ -69,10 +69,12 @@ def e2e_session(seed, thorough=False):
 
         return app
 
-    sess = H2.H2Session([], policy=policy, seed=seed, client_settings=settings, app=make_app)
+    worker = rng.choice(["asyncio", "trio"])
+    sess = H2.H2Session([], policy=policy, seed=seed, client_settings=settings, app=make_app, worker=worker)
     sess.auto_ack = False
     desc = {"seed": seed, "initial_window": iw, "streams": nstreams, "policy": policy, "sizes": {s: len(expected[s]) for s in sids},
-            "actions": []}
+            "actions": [], "worker": None}
+    desc["worker"] = worker
     failures = []
     outcomes = []
 
@@ -227,7 +229,8 @@ def conn_limited_session(seed):
         return app
 
     sess = H2.H2Session([], policy=rng.choice(["fifo", "random", "lifo"]), seed=seed,
-                        client_settings={h2.settings.SettingCodes.INITIAL_WINDOW_SIZE: 1_000_000}, app=make_app)
+                        client_settings={h2.settings.SettingCodes.INITIAL_WINDOW_SIZE: 1_000_000}, app=make_app,
+                        worker=rng.choice(["asyncio", "trio"]))
     sess.auto_ack = False
     for sid in sids:
         sess.request(sid, path=f"/s{sid}")
